@@ -41,7 +41,7 @@ type budget struct{ quick, thorough int }
 // measured rates (150 000 - 280 000 runs per hour for the whole-system engine)
 var budgets = map[string]budget{
 	"C01": {2500, 40000}, "C02": {2500, 50000}, "C03": {3000, 60000}, "C04": {2000, 30000}, "C05": {2500, 25000},
-	"C06": {2500, 60000}, "C07": {1200, 32000}, "C08": {2500, 60000}, "C09": {2500, 45000}, "C10": {2000, 45000},
+	"C06": {2500, 60000}, "C07": {3200, 32000}, "C08": {2500, 60000}, "C09": {2500, 45000}, "C10": {2000, 45000},
 	"C11": {2000, 45000}, "C15": {4000, 100000}, "C19": {6000, 400000}, "C20": {3000, 60000},
 }
 
